@@ -126,14 +126,20 @@ CHECKS = {
     ),
     "C17": dict(
         category="model_checking",
-        text=("Bounded model checking (Kani/CBMC) of the real UnionFind::{union,find,find_naive,reserve,reset}: each harness "
-              "is one solver query over every parent forest of N=5 ids satisfying the representation invariant, for one "
-              "concrete argument tuple; asserts the exact partition post-condition (the two classes merged, nothing else "
-              "moved, representative = minimum). Base case + inductive step => histories of any length within N."),
+        text=("Bounded model checking (Kani/CBMC) of the real union-finds. Sequential UnionFind::{union, find, find_naive, reserve, "
+              "reset}: each harness is one solver query over every parent forest of N=5 ids satisfying the representation invariant, "
+              "for one concrete argument tuple, asserting the exact partition post-condition (the two classes merged, nothing else "
+              "moved, representative = minimum); base case + inductive step => histories of any length within N. Concurrent "
+              "ConcurrentUnionFind::{merge, find, same_set} over a harness atomic cell: before every atomic access an adversarial "
+              "environment may perform up to B link / compress writes (interleavings as data); asserted: every write of the code is "
+              "itself a link or compress step (guarantee), and under the rely merge / find / same_set meet their linearizable "
+              "specifications."),
         design_ref="DESIGN.md §2 C17",
-        note=("Bounds: N=5 (sequential). Id arguments case-split, forest contents symbolic. Trusted: Kani's MIR->goto "
-              "translation, CBMC, CaDiCaL. Outside: N>5."),
-        technique="bounded model checking of the real Rust code with Kani/CBMC (SAT), inductive-step harnesses from a symbolic invariant state",
+        note=("Bounds: N=5 (sequential), N=4 and B<=1 quick / B<=2 thorough (concurrent). Id arguments case-split, forest contents "
+              "symbolic. Atomics sequentially consistent in the model. Outside: N beyond the bounds, weak-memory reorderings, and the "
+              "real Buffer (dynamic resizing, reset, deep_copy), which is replaced by a plain-Vec stand-in under cfg(kani). Trusted: "
+              "Kani's MIR->goto translation, CBMC, CaDiCaL."),
+        technique="bounded model checking of the real Rust code with Kani/CBMC (SAT), inductive-step harnesses from a symbolic invariant state; interleavings modelled as adversarial writes",
     ),
 }
 
@@ -164,7 +170,7 @@ def build():
         "setup_cmd": "bin/setup",
         "hooks": {
             "guard": "cfg(kani) for Kani harness includes (set only by cargo kani); cfg(egglog_verif) for the plan dump (set by /verif via RUSTFLAGS)",
-            "enable": "E1: `cargo kani` sets --cfg kani; harness sources are include!d from $EGGLOG_VERIF_DIR/kani. E2: RUSTFLAGS='--cfg egglog_verif' when building /verif/engines/plandump",
+            "enable": "E1: `cargo kani` sets --cfg kani; harness sources are include!d from $EGGLOG_VERIF_DIR/kani. E2: lib/e2/run.py builds /repo's own `egglog` binary with RUSTFLAGS='--cfg egglog_verif' into a scratch target dir; hook sources are include!d from $EGGLOG_VERIF_DIR/engines/dump; the dump goes to the file named by $EGGLOG_VERIF_DUMP",
             "baseline_off_cmd": BASELINE_OFF,
             "source_commits": HOOK_COMMITS,
             "add_only": True,
